@@ -37,6 +37,18 @@ def rule_r1(ctx):
         t = truth_of(c, lambda n: n.get("k") == "mem" and n["f"] == "server")
         if t:
             tests.append(("mask/role (%s)" % show(c), b.id, None))
+    # the same tests behind a validity predicate: `if (!helper(frame)) { ws_close ... }` with helper returning the comparison
+    for b, k_true, h, call in G.predicate_calls(f, prog):
+        consts = set()
+        for atom, val in G.returned_atoms(h):
+            if atom.get("k") == "bin" and G.field_is(atom["lhs"], "len") and const_of(atom["rhs"]) in (65536, 126) and \
+                    ((atom["op"] == ">=" and val) or (atom["op"] == "<" and not val)):
+                consts.add(const_of(atom["rhs"]))
+        if consts == {65536, 126}:
+            bad = f.blocks[b].succs[1 - k_true]
+            if bad is not None and G.must_pass(f, (bad, 0), closes) is None:
+                for cst in sorted(consts):
+                    tests.append(("minimal encoding (< %d via %s)" % (cst, h.name), b, 1 - k_true))
     kinds = {t[0].split(" (")[0] for t in tests}
     for need in ("minimal encoding", "len > maxframe", "mask/role"):
         if need not in kinds:
